@@ -26,7 +26,7 @@ type c10Op struct {
 type c10Stim struct {
 	ID    int     `json:"id"`
 	Arity int     `json:"arity"`
-	Univ  string  `json:"univ"` // "user": defclass chain k1 < k2 < k3; "builtin": fixnum < integer < real
+	Univ  string  `json:"univ"` // "user" / "retry": defclass chain k1 < k2 < k3; "builtin": fixnum < integer < real; "lists": cons < list < sequence
 	Ops   []c10Op `json:"ops"`
 }
 
@@ -67,6 +67,15 @@ func c10(args []string) {
 				return map[string]string{"k1": "7", "k2": "1180591620717411303424", "k3": "1.5"}[k]
 			}
 		}
+		if st.Univ == "lists" {
+			// cons < list < sequence: a dotted pair, a proper list and a vector (two values of one Go type differ in class)
+			cls = func(k string) string {
+				return map[string]string{"k1": "cons", "k2": "list", "k3": "sequence", "t": "t"}[k]
+			}
+			inst = func(k string) string {
+				return map[string]string{"k1": "(cons 1 2)", "k2": "(list 1 2)", "k3": "(vector 1 2)"}[k]
+			}
+		}
 		ps := params[:st.Arity]
 		h.Eval(s, fmt.Sprintf("(defgeneric %s (%s))", g, strings.Join(ps, " ")))
 		steps := []any{}
@@ -80,7 +89,15 @@ func c10(args []string) {
 				}
 				tag := strings.Join(op.S, ",")
 				body := fmt.Sprintf(`(vmark "%s:%s:%d")`, tag, op.Q, op.V)
-				if op.Q == "around" {
+				if st.Univ == "retry" && op.Q == "primary" && op.V == 1 {
+					body += ` (error "primary fails")`
+				}
+				if op.Q == "around" && st.Univ == "retry" && op.V == 1 {
+					// the first call of the next method is left through an error (if the primary fails), the second goes to the
+					// same next method
+					body = fmt.Sprintf(`(vmark "%s:in:1") (ignore-errors (call-next-method %s)) (vmark "%s:mid:1") (call-next-method %s) (vmark "%s:out:1")`,
+						tag, strings.Join(ps, " "), tag, strings.Join(ps, " "), tag)
+				} else if op.Q == "around" {
 					if op.V == 1 {
 						body = fmt.Sprintf(`(vmark "%s:in:1") (call-next-method %s) (vmark "%s:out:1")`, tag, strings.Join(ps, " "), tag)
 					} else { // version 2 of an :around body does not continue
